@@ -33,3 +33,7 @@ REG.contract(T + "GroupSpecificTerm.eval_new_data", params={"data": "any"}, retu
                       f"result[r, {G} * {P} + l] == (col({X}, r, l) if ({NEW}) else 0))))"])
 
 FUNCTIONS = [T + "GroupSpecificTerm.eval_new_data"]
+
+
+ASSUMPTIONS = ['scipy.linalg.khatri_rao assumed: K[i*p+k, c] = A[i, c] * B[k, c]; numpy: any(axis=1), ~, column_stack, zeros, mask assignment, .T',
+               'expr.eval_new_data / factor.eval_new_data are pure functions of the term and the frame (their own contracts are variable_c / bounded)']
